@@ -157,6 +157,17 @@ CHECKS = {
         "offline checker over recorded pull/write event logs + enumeration of crash points and per-frame corruptions",
         "4/C13",
     ),
+    "C05": (
+        "exploration",
+        "True wavefunctions are encoded with each vendor quirk (encoders validated by decoding the real vendor files of the "
+        "corpus to orthonormal orbitals under R's exact overlaps), written as Molden / Molekel files (AU and Angs) and loaded with "
+        "the real load_one for norm_threshold in {1e-5..1e-2}: orbitals compared as functions of space with the TRUE wavefunction, "
+        "C^T S C = 1 w.r.t. the returned basis, a LoadWarning naming an applicable correction (or silence when the quirk is below "
+        "the threshold); standard-conforming files must load with no warning; corrupted files for which R shows that no known "
+        "decoding gives normalised orbitals (norm error > 100 x threshold) must be refused with LoadError.",
+        "runtime oracle: vendor encoders + independent evaluator/overlaps vs the real vendor-fix cascade",
+        "4/C05",
+    ),
 }
 
 NOT_YET = "check not built yet (work in progress; see DESIGN.md section 5b)"
